@@ -183,16 +183,81 @@ pub fn cmp(args: &[&str]) -> String {
             None => return "BADARG".into(),
         }
     };
-    match portus::lang::compile_and_serialize(&src, &upd_ref) {
+    let res = portus::lang::compile_and_serialize(&src, &upd_ref);
+    // the same program through the route the runtime takes: lang::compile, then the INSTALL message around the Bin.
+    // Its body must be exactly the image, and it must be refused exactly when the image is refused.
+    let via_install: Option<Vec<u8>> = portus::lang::compile(&src, &upd_ref).ok().and_then(|(bin, sc)| {
+        let m = portus::serialize::install::Msg {
+            sid: 0,
+            program_uid: sc.program_uid,
+            num_events: bin.events.len() as u32,
+            num_instrs: bin.instrs.len() as u32,
+            instrs: bin,
+        };
+        portus::serialize::serialize(&m).ok()
+    });
+    let consistent = match (&res, &via_install) {
+        (Ok((img, _)), Some(m)) => m.len() >= 20 && m[20..] == img[..],
+        (Ok((img, _)), None) => img.len() + 20 > 65535, // the message (not the image) is too long for its 16-bit length field
+        (Err(_), Some(_)) => false,
+        (Err(_), None) => true,
+    };
+    let tail = if consistent { "" } else { " INSTALL-MISMATCH" };
+    match res {
         Ok((img, sc)) => {
             let regs: Vec<String> = names
                 .iter()
                 .map(|n| sc.get(n).map(show_reg).unwrap_or_else(|| "?".into()))
                 .collect();
-            format!("OK {} {}", hex(&img), if regs.is_empty() { "-".to_string() } else { regs.join(";") })
+            format!("OK {} {}{}", hex(&img), if regs.is_empty() { "-".to_string() } else { regs.join(";") }, tail)
         }
-        Err(_) => "ERR".into(),
+        Err(_) => format!("ERR{}", tail),
     }
+}
+
+/// CMPPAR <srchex> <srchex> ...: each source compiled alone (`OK <imagehex>` | `ERR`), then all of them compiled 300 times each on
+/// their own threads at the same time: compilation shares nothing between threads but the uid counter (`STABLE` | `UNSTABLE ..`)
+pub fn cmppar(args: &[&str]) -> String {
+    let srcs: Option<Vec<Vec<u8>>> = args.iter().map(|h| unhex(h)).collect();
+    let srcs = match srcs {
+        Some(s) if s.len() >= 2 && s.len() <= 32 => s,
+        _ => return "BADARG".into(),
+    };
+    fn one(s: &[u8]) -> String {
+        match portus::lang::compile_and_serialize(s, &[]) {
+            Ok((img, _)) => format!("OK {}", if img.is_empty() { "-".to_string() } else { hex(&img) }),
+            Err(_) => "ERR".to_string(),
+        }
+    }
+    let alone: Vec<String> = srcs.iter().map(|s| one(s)).collect();
+    let go = std::sync::Arc::new(std::sync::Barrier::new(srcs.len()));
+    let hs: Vec<_> = srcs
+        .into_iter()
+        .zip(alone.clone())
+        .enumerate()
+        .map(|(i, (s, want))| {
+            let go = go.clone();
+            std::thread::spawn(move || {
+                go.wait();
+                for _ in 0..300 {
+                    let got = one(&s);
+                    if got != want {
+                        return Some(format!("UNSTABLE thread={} {}", i, got));
+                    }
+                }
+                None
+            })
+        })
+        .collect();
+    let mut verdict = "STABLE".to_string();
+    for h in hs {
+        match h.join() {
+            Ok(Some(v)) => verdict = v,
+            Ok(None) => {}
+            Err(_) => verdict = "UNSTABLE PANIC".to_string(),
+        }
+    }
+    format!("{} || {}", alone.join(" || "), verdict)
 }
 
 /// replace every Rust `Debug` string literal by `"<hex of its UTF-8>"`
@@ -263,6 +328,8 @@ pub fn ast(args: &[&str]) -> String {
 /// R2 the same `Prog` compiled a SECOND time against the scope the first compilation left behind;
 /// R3 the same `Prog` compiled against `Scope::default()` (no declarations);
 /// each answers `OK <imagehex>` or `ERR`; a panic anywhere gives `PANIC` for the whole case.
+pub const CMPX_SECOND: &str = "(def (Report (zzq 0))) (when true (:= zzfresh (+ Cwnd 1)) (:= zzother zzfresh) (:= Rate (+ zzother zzfresh)))";
+
 pub fn cmpx(args: &[&str]) -> String {
     if args.len() != 1 {
         return "BADARG".into();
@@ -278,7 +345,7 @@ pub fn cmpx(args: &[&str]) -> String {
         }
     }
     match portus::lang::Prog::new_with_scope(&src) {
-        Err(_) => "R1 ERR | R2 ERR | R3 ERR".to_string(),
+        Err(_) => "R1 ERR | R2 ERR | R3 ERR | R4 ERR".to_string(),
         Ok((prog, mut scope)) => {
             let c1 = portus::lang::Bin::compile_prog(&prog, &mut scope);
             let first_ok = c1.is_ok();
@@ -291,7 +358,16 @@ pub fn cmpx(args: &[&str]) -> String {
             };
             let mut dflt = portus::lang::Scope::default();
             let r3 = portus::lang::Bin::compile_prog(&prog, &mut dflt).and_then(|b| b.serialize());
-            format!("R1 {} | R2 {} | R3 {}", show(r1), r2, show(r3))
+            // R4: ANOTHER program (it introduces a new local) compiled against the scope the first compilation left behind
+            let r4 = if first_ok {
+                match portus::lang::Prog::new_with_scope(CMPX_SECOND) {
+                    Ok((p2, _)) => show(portus::lang::Bin::compile_prog(&p2, &mut scope).and_then(|b| b.serialize())),
+                    Err(_) => "ERR".to_string(),
+                }
+            } else {
+                "-".to_string()
+            };
+            format!("R1 {} | R2 {} | R3 {} | R4 {}", show(r1), r2, show(r3), r4)
         }
     }
 }
